@@ -456,6 +456,36 @@ def _shifted_zip_targets(loop):
     return u(s0.value), k0, loop.target.elts[0], loop.target.elts[1]
 
 
+def _grouping_loop(fr):
+    """(loop, position variable, ascending) of the loop that files every position under its component:
+    for p, c in components.items(): blocks[c].append(p)   |   for p in components / sorted(components): blocks[components[p]].append(p)"""
+    comps = util.params_of(fr.node)[1]
+    for n in walk_function(fr.node):
+        if not isinstance(n, ast.For) or util.lexical_loop_exits(n) or any(isinstance(x, ast.Continue) for x in ast.walk(n)):
+            continue
+        it = u(n.iter)
+        if it in ("%s.items()" % comps, "sorted(%s.items())" % comps) and isinstance(n.target, ast.Tuple) and len(n.target.elts) == 2:
+            pos, key = u(n.target.elts[0]), u(n.target.elts[1])
+        elif it in (comps, "%s.keys()" % comps, "sorted(%s)" % comps, "sorted(%s.keys())" % comps) and isinstance(n.target, ast.Name):
+            pos, key = n.target.id, "%s[%s]" % (comps, n.target.id)
+        else:
+            continue
+        apps = [c for c in ast.walk(n) if isinstance(c, ast.Call) and isinstance(c.func, ast.Attribute) and c.func.attr == "append" and isinstance(c.func.value, ast.Subscript) and u(c.func.value.value) == "blocks" and u(c.func.value.slice) == key and len(c.args) == 1 and u(c.args[0]) == pos]
+        if len(apps) == 1 and len(n.body) == 1:
+            return n, pos, it.startswith("sorted(")
+    return None
+
+
+def _block_sorted(fr, outer, blockvar):
+    """Is the block in ascending position order where its members are paired: sorted in the block loop, or filled in
+    ascending order of the positions in the first place"""
+    if any(isinstance(c, ast.Call) and u(c.func) == "%s.sort" % blockvar and not c.args and not c.keywords for c in ast.walk(outer)):
+        return True
+    g = _grouping_loop(fr)
+    other_fill = [c for c in ast.walk(fr.node) if isinstance(c, ast.Call) and isinstance(c.func, ast.Attribute) and c.func.attr in ("append", "insert", "extend") and isinstance(c.func.value, ast.Subscript) and u(c.func.value.value) == "blocks"]
+    return g is not None and g[2] and len(other_fill) == 1 and u(outer.iter) in ("blocks.values()", "blocks.items()")
+
+
 def _event_pairing(fr, loops, e):
     """(ok, explanation) for the two position arguments of the event, or None if the shape is not understood."""
     a0, a1 = e.args[0], e.args[1]
@@ -465,7 +495,7 @@ def _event_pairing(fr, loops, e):
         ok = {k: v for k, v in d.items() if v} == {"": 1}
         blockvar = u(a0.value)
         outer = [n for n in loops if _blocks_loop_var(n) == blockvar]
-        srt = any(isinstance(c, ast.Call) and u(c.func) == "%s.sort" % blockvar for c in ast.walk(outer[0])) if len(outer) == 1 else False
+        srt = _block_sorted(fr, outer[0], blockvar) if len(outer) == 1 else False
         return ok and len(outer) == 1 and srt, "indices differ by one in the sorted block" if ok and srt else "indices %s / %s of %s%s" % (u(a0.slice), u(a1.slice), blockvar, "" if srt else " (block not sorted)")
     # form B0: a flat n-ary zip in which the two names run over S[k:] and S[k+1:] of the same sorted block S
     if isinstance(a0, ast.Name) and isinstance(a1, ast.Name):
@@ -523,7 +553,7 @@ def _event_pairing(fr, loops, e):
             if src_block is None:
                 return None
             outer = [n for n in loops if _blocks_loop_var(n) == src_block]
-            srt = any(isinstance(c, ast.Call) and u(c.func) == "%s.sort" % src_block for c in ast.walk(outer[0])) if len(outer) == 1 else False
+            srt = _block_sorted(fr, outer[0], src_block) if len(outer) == 1 else False
             return srt, "neighbours of %s taken by zip(%s[%d:], %s[%d:])" % (src_block, S, k, S, k + 1) if srt else "block %s is not sorted" % src_block
     return None
 
@@ -676,6 +706,8 @@ def r4(ctx):
     block_loops = [n for n in loops if ".items()" in u(n.iter) and isinstance(n.target, ast.Tuple)]
     comp_loop = [n for n in block_loops if u(n.iter) == "%s.items()" % util.params_of(fr.node)[1]]
     ok = (None if not comp_loop else (len(comp_loop) == 1 and any(isinstance(c, ast.Call) and isinstance(c.func, ast.Attribute) and c.func.attr == "append" and u(c.func.value) == "blocks[%s]" % u(comp_loop[0].target.elts[1]) and u(c.args[0]) == u(comp_loop[0].target.elts[0]) for c in ast.walk(comp_loop[0]))))
+    if not comp_loop and _grouping_loop(fr) is not None:
+        ok = True
     ctx.ob(fr.qual, "blocks-group-by-component", ok, fr.loc(), "positions are grouped by their component id" if ok else "positions are not grouped as blocks[component].append(position)")
     evs = [c for c in ctx.prog.calls_in(fr.node) if u(c.func) == "RecombinationEvent"]
     ctx.require(len(evs) == 1, "RecombinationEvent construction not found")
